@@ -8,6 +8,9 @@
 * `authentic()` re-stamps a real datagram with an arbitrary (symbolic) header and the checksum the sender's keys
   give for it: "any message the peer could have sent with that header".
 """
+import warnings
+warnings.filterwarnings('ignore', message='.*FFDH.*')
+warnings.filterwarnings('ignore', message='.*Diffie-Hellman over finite fields.*')
 import hashlib
 import types
 from ipaddress import ip_address, ip_network
